@@ -428,7 +428,7 @@ func TestC11Mem(t *testing.T) {
 		n := rapid.IntRange(2, 4).Draw(t, "nodes")
 		w, err := stack.Build(spec, n, 0)
 		if err != nil {
-			t.Fatalf("harness: %v: %v", spec, err)
+			t.Fatalf("%s", ev.Tag(fmt.Sprintf("harness: %v: %v", spec, err)))
 		}
 		plans := genAskPlans(t, n, w.Nodes[0].S.MTU(), partSizeOf(spec), 20, true)
 		desc := fmt.Sprintf("%v nodes=%d", spec, n)
@@ -466,7 +466,7 @@ func TestC11Net(t *testing.T) {
 			}
 		}
 		if err != nil {
-			t.Fatalf("harness: %v", err)
+			t.Fatalf("%s", ev.Tag(fmt.Sprintf("harness: %v", err)))
 		}
 		plans := genAskPlans(t, n, mtu, part, 8, true)
 		results, invs, reqs := runAsks(w, plans, 2)
